@@ -133,11 +133,13 @@ pub fn run(case: &Value) -> Value {
     }
     // fixture: the app_dir of every build config is "$ABS/..." (absolute) or relative to the manifest dir
     let mut case = case.clone();
-    let abs_prefix = root.join("abs").display().to_string();
+    // "$TMP/..." puts the fixture below the system temporary directory the run sees (TMPDIR)
+    let abs_prefix = format!("{}\u{0}{}", root.join("abs").display(), root.join("tmp").display());
     fn patch(v: &mut Value, abs: &str, fixtures: &mut Vec<String>) {
         if let Some(cfg) = v.get_mut("app_dir") {
             let s = string_of(cfg);
-            let s2 = s.replace("$ABS", abs);
+            let (abs_dir, tmp_dir) = abs.split_once('\u{0}').unwrap();
+            let s2 = s.replace("$ABS", abs_dir).replace("$TMP", tmp_dir);
             fixtures.push(s2.clone());
             *cfg = json_bytes(s2.as_bytes());
         }
